@@ -257,9 +257,12 @@ class FileProxy:
 
 # ------------------------------------------------------------------------------------ wrappers
 def _w_open(file, mode='r', *args, **kwargs):
-    path = None if isinstance(file, int) else _pathstr(file)
+    path = FDPATH.get(file) if isinstance(file, int) else _pathstr(file)  # open(fd)/os.fdopen of a descriptor opened under a root
     if path is None or suspended() or _root_of(path) is None:
         return _REAL['open'](file, mode, *args, **kwargs)
+    if isinstance(file, int):
+        FDPATH.pop(file, None)  # the file object owns the descriptor from now on
+        return FileProxy(_REAL['open'](file, mode, *args, **kwargs), path, mode)
     writable = any(c in mode for c in 'wax+')
     _expect('open')
     emit('open-w' if writable else 'open-r', path, {'mode': mode})
